@@ -22,8 +22,23 @@ fn gen_prob(rng: &mut Rng) -> f64 {
     match rng.below(8) { 0 | 1 => 0.0, 2 | 3 => 1.0, 4 => 0.5, 5 => 0.9, 6 => 1e-3, _ => (1 + rng.below(998)) as f64 / 1000.0 }
 }
 
+thread_local! { static LAST_PANIC_LOC: std::cell::RefCell<String> = std::cell::RefCell::new(String::new()); }
+
+/// panic hook for the in-process correspondences: silent, but remembers WHERE the panic was raised (file:line), so
+/// that a known finding can be told from another panic with the same message
+pub fn install_panic_hook() {
+    std::panic::set_hook(Box::new(|info| {
+        let loc = info.location().map(|l| format!("{}:{}", l.file(), l.line())).unwrap_or_default();
+        LAST_PANIC_LOC.with(|c| *c.borrow_mut() = loc);
+    }));
+}
+
 fn panic_msg(e: Box<dyn std::any::Any + Send>) -> String {
-    if let Some(s) = e.downcast_ref::<&str>() { s.to_string() } else if let Some(s) = e.downcast_ref::<String>() { s.clone() } else { "panic".into() }
+    let m = if let Some(s) = e.downcast_ref::<&str>() { s.to_string() } else if let Some(s) = e.downcast_ref::<String>() { s.clone() } else { "panic".into() };
+    let loc = LAST_PANIC_LOC.with(|c| std::mem::take(&mut *c.borrow_mut()));
+    // only the path inside the crate (the checkout directory differs between runs)
+    let loc = loc.rsplit_once("/src/").map(|(_, f)| format!("src/{f}")).unwrap_or(loc);
+    if loc.is_empty() { m } else { format!("{m} [at {loc}]") }
 }
 
 pub fn gen_case(rng: &mut Rng, thorough: bool) -> J {
